@@ -28,7 +28,7 @@ pub struct Group {
 }
 
 fn var_name(i: u32) -> String {
-    format!("u{i:03}")
+    format!("u{i:04}")
 }
 
 impl Group {
@@ -146,6 +146,9 @@ pub fn check_chain(table: &[OpSpec], g: &Group, what: &str, conversions: bool) -
         ),
     ];
     for (label, f) in forms.iter() {
+        if n_operands > 1000 && !label.starts_with("flat") {
+            continue;
+        }
         if !conversions && label.contains("to_deep") {
             // flat -> deep is quadratic in the chain length; long chains take this route for a sample only
             continue;
@@ -252,14 +255,20 @@ fn orders_exhaustive(idx: u64, st: &mut Stats) -> CaseResult {
 // ---------------------------------------------------------------------------------------------
 // long chains
 
-const LENGTHS: [usize; 27] = [
+const LENGTHS: [usize; 28] = [
     3, 9, 17, 31, 32, 33, 34, 63, 64, 65, 66, 67, 127, 128, 129, 130, 191, 192, 193, 194, 255, 256, 257, 258, 320,
-    513, 5,
+    513, 5, HUGE,
 ];
+/// beyond 32 tracker words (2048 operands); only the flat evaluation routes are taken (the deep
+/// form and the conversions are quadratic in the length)
+const HUGE: usize = 2100;
 
 fn long_chains(tape: &[u32], st: &mut Stats) -> CaseResult {
     let mut t = Tape::new(tape);
-    let n = *t.pick(&LENGTHS);
+    let mut n = *t.pick(&LENGTHS);
+    if n == HUGE && !t.chance(25) {
+        n = 64; // the huge chain is expensive: a quarter of its draws
+    }
     let m = n - 1;
     let k = 1 + t.choose(64); // number of operators in the table
     let pattern = t.choose(8);
@@ -308,6 +317,7 @@ fn long_chains(tape: &[u32], st: &mut Stats) -> CaseResult {
         3 => nest_left(items, ops, 150),
         _ => random_groups(&mut t, items, ops, 0),
     };
+    st.class_if(n == HUGE, "more than 2048 operands (33 tracker words)");
     st.class(&format!("operands~{}", if n <= 17 { "<=17" } else if n <= 67 { "31-67" } else if n <= 130 { "127-130" } else if n <= 194 { "191-194" } else { ">=255" }));
     st.class(&format!("pattern={}", ["random", "left-to-right", "right-to-left", "alternating-ends", "inside-out", "outside-in", "blocks-of-64", "scattered"][pattern]));
     st.class(&format!("shape={}", ["flat", "flat", "right-nested", "left-nested", "random-groups"][shape]));
@@ -403,7 +413,7 @@ pub fn def() -> PropDef {
             SubCheck {
                 name: "long_chains",
                 rule: "tape -> length from {3..513, dense around 32,64,128,192,256} x 1-64 operators x order pattern (random, left-to-right, right-to-left, alternating ends, inside-out, outside-in, blocks of 64, scattered) x operands (variables repeated or all distinct, literals) x grouping (flat, right-nested, left-nested, random groups); non-trivial = >=64 operands or a non-monotone order; distinct by text",
-                kind: Kind::Tape { len: 1600, quick: 3_000, thorough: 150_000, f: long_chains },
+                kind: Kind::Tape { len: 4300, quick: 3_000, thorough: 150_000, f: long_chains },
             },
         ],
     }
